@@ -34,6 +34,12 @@ naming labels that lie after a block whose reserved size shrinks during assembly
 in a free descriptor block (`.split`) and after the shrinking block; no pin, each single pin, and descriptor + chain both
 pinned.  Oracle: every element equals its expression evaluated at the final label addresses.
 
+Family `literal` (x86_32 and arml, both tiers): blocks `NOP ; <literal bytes> ; <branch to a label>` where the literal is
+.ascii / .string text of 1, 2, 5 bytes (4 and 8 on arml) or - as contrast - a .byte list of the same kind of length; the
+branch is a conditional one to the following label or an unconditional one back to the first label; no pin and each
+single pin.  Oracle: the literal bytes are emitted as written and the branch, decoded at its final offset behind the
+literal, targets the label's final address.
+
 dst_interval in {None, roomy, tight, tight-1}: tight is the hull of the most compact layout the reference search finds,
 roomy adds 0x80 bytes of slack on both sides (the assembler reserves the *longest* encoding of every instruction while it
 places chains, so only a roomy interval exercises "patches stay inside the interval" on successful runs).
@@ -66,7 +72,8 @@ RULE = ("every text of f free blocks + a fall-through chain of c blocks with bod
         "every subset of <=K pinned labels (every chain position) with addresses from a 6-value relative menu, dst_interval in "
         "{None, roomy, tight, tight-1}; plus (x86_32) the `windows` family: 2-3 exactly-sized free blocks next to a pinned chain with a "
         "two-window dst_interval / a pinned neighbour leaving a hole for exactly one of them, and the `data` family: directives over "
-        "label expressions (bare table, label+k, label-label) before / beside / after a block whose size shrinks; non-trivial = at least one pin or a "
+        "label expressions (bare table, label+k, label-label) before / beside / after a block whose size shrinks, and the `literal` "
+        "family (x86_32, arml): NOP ; .ascii/.string/.byte bytes ; pc-relative branch to a label in one block; non-trivial = at least one pin or a "
         "bounded interval; distinct by (text, pins, interval)")
 LEVEL_TEXT = ("Bounded-exhaustive: every program of the lattice is parsed by parse_txt, pinned through the LocationDB and assembled by "
               "asm_resolve_final; feasibility is decided by an independent brute-force layout search that exhibits a witness layout, "
@@ -171,7 +178,21 @@ for _k, (_t, _v) in X_ITEMS.items():
     ARCHS["x86_32"]["items"][_k] = [("x", _t, 4 * len(_v), _v)]
     ARCHS["x86_32"]["items"][_k + "s"] = [("x", _t, 4 * len(_v), _v)]
 XS = tuple(k + "s" for k in X_ITEMS)
-TERM = ("J", "R", "S") + XS
+# literal-byte lines inside a block: ("l", directive, size, bytes).  Kind "L<lit><b>" = NOP ; <literal> ; <branch b> with b
+# in Z (conditional, falls through) / J (unconditional): the branch is assembled behind the literal, in the same block.
+# The .byte list is the contrast case (an expression-list directive of the same length).
+LITS = {"x86_32": [("A1", '.ascii "A"', b"A"), ("A2", '.ascii "AB"', b"AB"), ("S5", '.string "ABCD"', b"ABCD\x00"),
+                   ("B2", ".byte 1, 2", b"\x01\x02")],
+        "arml": [("A4", '.ascii "ABCD"', b"ABCD"), ("S4", '.string "ABC"', b"ABC\x00"), ("A8", '.ascii "ABCDEFGH"', b"ABCDEFGH"),
+                 ("B4", ".byte 1, 2, 3, 4", b"\x01\x02\x03\x04")]}
+LIT_KINDS = {}
+for _arch, _lits in LITS.items():
+    for _n, _t, _b in _lits:
+        for _br in ("Z", "J"):
+            _k = "L%s%s" % (_n, _br)
+            ARCHS[_arch]["items"][_k] = ARCHS[_arch]["items"]["N"] + [("l", _t, len(_b), _b)] + ARCHS[_arch]["items"][_br]
+            LIT_KINDS.setdefault(_arch, []).append(_k)
+TERM = ("J", "R", "S") + XS + tuple(k for ks in LIT_KINDS.values() for k in ks if k.endswith("J"))
 
 
 def _windows(itv):
@@ -188,15 +209,18 @@ BOUNDS = {
     "quick": {
         "x86_32": {"structures": [(1, 0), (2, 0), (3, 0), (1, 1), (2, 1)], "inner": ["N", "D", "DZ"], "last": ["N", "D", "J"],
                    "free": ["J", "R"], "refs": ["next"], "max_pins": 2, "pair_intervals": ["none", "roomy", "tight"],
-                   "windows": {"structures": [(1, 2), (2, 2), (1, 3), (2, 3)]}, "data": True},
+                   "windows": {"structures": [(1, 2), (2, 2), (1, 3), (2, 3)]}, "data": True, "literal": True},
+        # the fixed-width target of the `literal` family only
+        "arml": {"structures": [], "inner": [], "last": [], "free": [], "refs": ["next"], "max_pins": 1, "pair_intervals": [],
+                 "literal": True},
     },
     "thorough": {
         "x86_32": {"structures": [(1, 0), (2, 0), (3, 0), (1, 1), (2, 1), (3, 1), (1, 2), (2, 2)],
                    "inner": ["N", "D", "Z", "DZ"], "last": ["N", "D", "J"], "free": ["J", "R"], "refs": ["next", "first"],
                    "max_pins": 3, "pair_intervals": ["none", "roomy", "tight", "tight-1"],
-                   "windows": {"structures": [(1, 2), (2, 2), (3, 2), (1, 3), (2, 3), (3, 3)]}, "data": True},
+                   "windows": {"structures": [(1, 2), (2, 2), (3, 2), (1, 3), (2, 3), (3, 3)]}, "data": True, "literal": True},
         "arml": {"structures": [(1, 0), (2, 0), (3, 0), (1, 1), (2, 1), (3, 1)], "inner": ["N", "D", "Z"], "last": ["N", "D", "J"],
-                 "free": ["J", "R"], "refs": ["next"], "max_pins": 2, "pair_intervals": ["none", "roomy", "tight"]},
+                 "free": ["J", "R"], "refs": ["next"], "max_pins": 2, "pair_intervals": ["none", "roomy", "tight"], "literal": True},
         "mips32l": {"structures": [(1, 0), (2, 0), (3, 0), (1, 1), (2, 1), (3, 1)], "inner": ["N", "D", "Z"], "last": ["N", "D", "J"],
                     "free": ["J", "R"], "refs": ["next"], "max_pins": 2, "pair_intervals": ["none", "roomy", "tight"]},
         "msp430": {"structures": [(1, 0), (2, 0), (3, 0), (1, 1), (2, 1), (3, 1)], "inner": ["N", "D", "Z"], "last": ["N", "D", "J"],
@@ -223,6 +247,8 @@ def programs(arch, par):
         out += window_programs(arch, par["windows"])
     if par.get("data"):
         out += data_programs(arch)
+    if par.get("literal"):
+        out += literal_programs(arch)
     return out
 
 
@@ -249,6 +275,8 @@ def text_of(prog):
         for el in a["items"][kind]:
             if el[0] == "x":
                 lines.append("    " + el[1].format(x=labs[prog["xy"][0]], y=labs[prog["xy"][1]]))
+            elif el[0] == "l":
+                lines.append("    " + el[1])
             else:
                 lines.append("    " + el[1].format(ref=labs[ref_of(prog, i, el[0] == "d")]))
         if kind in TERM and (a["split"] or kind == "S" or kind in XS) and i + 1 < len(prog["bodies"]):
@@ -286,7 +314,7 @@ def _block_sizes(prog, choice_of):
     for bi, kind in enumerate(prog["bodies"]):
         s = []
         for ei, el in enumerate(a["items"][kind]):
-            if el[0] in ("d", "x"):
+            if el[0] in ("d", "x", "l"):
                 s.append(el[2])
             else:
                 s.append(el[4][choice_of.get((bi, ei), 0)][0])
@@ -437,7 +465,7 @@ def cases_windows(prog):
                free block; dst_interval = one window ending exactly after room for the remaining free blocks"""
     a = ARCHS[prog["arch"]]
     f = prog["nfree"]
-    sz = [sum(el[2] if el[0] in ("d", "x") else el[4][0][0] for el in a["items"][k]) for k in prog["bodies"]]
+    sz = [sum(el[2] if el[0] in ("d", "x", "l") else el[4][0][0] for el in a["items"][k]) for k in prog["bodies"]]
     chain = list(range(f, len(sz)))
     csize = sum(sz[b] for b in chain)
     out = []
@@ -468,6 +496,25 @@ def data_programs(arch):
     return out
 
 
+def literal_programs(arch):
+    """A literal-bytes line (.ascii / .string of 1, 2, 5 bytes; 4 and 8 on the fixed-width target) or, as contrast, a .byte
+    list, followed IN THE SAME BLOCK by a pc-relative branch to a label:
+      L..Z | N     NOP ; literal ; conditional branch forward to the next label
+      N | L..J     NOP ; literal ; unconditional branch back to the first label"""
+    out = []
+    for k in LIT_KINDS.get(arch, []):
+        if k.endswith("Z"):
+            out.append({"arch": arch, "bodies": [k, "N"], "nfree": 0, "ref": "next", "fam": "literal"})
+        else:
+            out.append({"arch": arch, "bodies": ["N", k], "nfree": 0, "ref": "next", "fam": "literal"})
+    return out
+
+
+def cases_literal(prog):
+    pinsets = [{}] + [{i: BASE} for i in range(len(prog["bodies"]))]
+    return [(pins, "none", None, search(prog, pins, None)) for pins in pinsets]
+
+
 def cases_data(prog):
     m = len(prog["bodies"])
     pinsets = [{}] + [{i: BASE} for i in range(m)]
@@ -482,6 +529,8 @@ def cases_of(prog, par):
         return cases_windows(prog)
     if prog.get("fam") == "data":
         return cases_data(prog)
+    if prog.get("fam") == "literal":
+        return cases_literal(prog)
     out = []
     for pins in pin_sets(prog, par):
         w = search(prog, pins, None)
@@ -692,6 +741,16 @@ def evaluate(prog, pins, ikind, itv, witness, parsed=None):
         at = final[i]
         tgt = final[ref_of(prog, i)]
         for el in a["items"][kind]:
+            if el[0] == "l":
+                got = [image.get(at + j) for j in range(el[2])]
+                if None in got:
+                    bad("block-bytes-missing", "literal `%s` of block %s at %#x is not patched" % (el[1], labs[i], at))
+                    break
+                if bytes(got) != el[3]:
+                    bad("literal-bytes-differ", "block %s: `%s` at %#x emitted as %s" % (labs[i], el[1], at, bytes(got).hex()))
+                used.update(range(at, at + el[2]))
+                at += el[2]
+                continue
             if el[0] == "x":
                 xa, ya = final[prog["xy"][0]], final[prog["xy"][1]]
                 miss = False
